@@ -6,3 +6,16 @@ From SG Require Import Base.Prelude C20.SeqIdGen C20.SeqId.
 
 Lemma parse_old_reject_refuted : exists str, parse_old str = ERaw.
 Proof. exists "1:x"%string. vm_compute. reflexivity. Qed.
+
+(* Outside the [emitted] hypothesis of C20_emit_order_preserved: revocation rows (db/changes.go buildRevokedFeed)
+   carry TriggeredBy = the revocation sequence together with a document sequence that may be ABOVE it; such a
+   token is ordered at its TriggeredBy by [before] but printed as the plain sequence, so the order a client
+   recomputes from the printed tokens differs from the order of the response.  This is the root cause of the known
+   finding C13 visible-doc-missing/revocation-token-skips-rows. *)
+From SG Require Import C20.SeqIdOrder C20.SeqIdCodec.
+Open Scope N_scope.
+Lemma emit_order_not_preserved_without_emitted :
+  exists e1 e2, LowSeq e1 = 0 /\ LowSeq e2 = 0 /\ emitted e1 = false /\
+    before e1 e2 = true /\ before (canon (stamp 0 e1)) (canon (stamp 0 e2)) = false /\
+    parse (print_token e1) = POk (mk 0 0 10).
+Proof. exists (mk 7 0 10), (mk 0 0 8). vm_compute. repeat split; reflexivity. Qed.
